@@ -148,8 +148,38 @@ def prune(spec, pred):
     return s2
 
 
+def gen_directed(rng):
+    """a directed branch (pressure controller) whose inlet junction is cut off while its outlet side is supplied from another
+    grid, embedded at a random junction position: the controller and its inlet must report nothing"""
+    s = netgen.empty_spec(str(rng.choice(["water", "lgas"])))
+    n = 5
+    order = [int(x) for x in rng.permutation(n)]           # position of the logical junctions 0..4 in the table
+    labels = netgen._labels(rng, n, str(rng.choice(["contiguous", "shuffled", "sparse"])))
+    pos = {logical: order.index(logical) for logical in range(n)}
+    s["junctions"] = [None] * n
+    for logical in range(n):
+        s["junctions"][pos[logical]] = {"pn_bar": 5.0, "tfluid_k": 293.15, "height_m": 0.0, "in_service": True,
+                                         "index": labels[pos[logical]]}
+    J = lambda k: pos[k]
+    pipe = lambda a, b, on: {"from": J(a), "to": J(b), "length_km": 0.2, "d_mm": 100.0, "k_mm": 0.1, "sections": 1, "loss": 0.0,
+                             "u_w_per_m2k": 0.0, "text_k": 293.15, "in_service": on}
+    s["ext_grids"] = [{"junction": J(0), "p_bar": 6.0, "t_k": 293.15, "type": "pt", "in_service": True},
+                      {"junction": J(4), "p_bar": 4.0, "t_k": 293.15, "type": "pt", "in_service": True}]
+    s["pipes"] = [pipe(0, 1, False), pipe(2, 3, True), pipe(3, 4, True)]          # feeder of junction 1 is out of service
+    s["press_controls"] = [{"from": J(1), "to": J(2), "controlled": J(2), "p_bar": 4.5,
+                            "control_active": bool(rng.random() < 0.6), "loss": 0.0, "in_service": True}]
+    s["sinks"] = [{"junction": J(2), "mdot": 0.05 if s["fluid"] != "water" else 0.5, "scaling": 1.0, "in_service": True}]
+    s["options"] = {"friction_model": "nikuradse", "use_numba": bool(rng.random() < 0.5), "nonlinear_method": "constant",
+                    "mode": "hydraulics", "max_iter_hyd": 60, "max_iter_therm": 60, "max_iter_bidirect": 60}
+    return s
+
+
 def gen(rng):
     r = rng.random()
+    if r < 0.06:
+        s = gen_directed(rng)
+        s["c04_directed"] = True
+        return label_elements(s)
     if r < 0.75:
         s = netgen.gen_hydraulic(rng, features={"p_outage": 0.8, "p_pipe_valve": 0.1})
         # extra outage pressure: several flags at once
@@ -199,6 +229,12 @@ def oracle(spec):
             fails.append({"fingerprint": "C04:no-supply-must-fail", "clause": "no supplied junction => calculation fails",
                           "detail": {"outcome": repr(e)}})
         return {"status": "ok", "failures": fails, "hash": netgen.structure_hash(spec), "nontrivial": True, "tags": ["no-supply"]}
+    if e is not None and spec.get("c04_directed"):
+        # a small, well-conditioned net whose supplied part (second grid, two pipes, a sink) is trivially solvable: the cut-off
+        # inlet side of the directed branch must not keep the calculation from returning
+        fails.append({"fingerprint": "C04:supplied-part-not-calculated:%s" % type(e).__name__,
+                      "clause": "the supplied part is calculated, everything else reports NaN", "detail": {"exc": repr(e)[:200]}})
+        return {"status": "ok", "failures": fails, "hash": netgen.structure_hash(spec), "nontrivial": True, "tags": ["directed"]}
     if e is not None:
         return {"status": "skip:" + type(e).__name__}
     labels = [j["index"] for j in spec["junctions"]]
